@@ -1892,6 +1892,9 @@ class unyt_array(np.ndarray):
                 if inp0.shape == () or inp1.shape == () or inp0.shape == inp1.shape:
                     if isinstance(u1, unyt_array) and not u1.units.is_dimensionless:
                         raise UnitOperationError(ufunc, u0, u1.units)
+                    if isinstance(u1, unyt_array) and u1.units.base_value != 1.0:
+                        # an exponent of 200 percent is the number 2
+                        inp1 = u1 = u1.in_units("dimensionless")
                     if u1.shape == ():
                         u1 = float(u1)
                     else:
